@@ -38,6 +38,46 @@ def plan(tier, seed, batch):
     return [{"index": batch * 100000 + i, "seed": seed, "tier": tier} for i in range(n)]
 
 
+def fanout_block(rw):
+    """One access with several independent successors (or predecessors) in the dependency relation, optionally next to a
+    hash that does not reach the target stack (an instruction without identifier): the places where the front-end handles
+    *sets* of instruction identifiers, whose iteration order is the string-hash order of the process."""
+    mem = rw.random() < 0.6
+    ld, st = ("MLOAD", "MSTORE") if mem else ("SLOAD", "SSTORE")
+    n = rw.choice([2, 3, 3, 4, 5])
+    consts = rw.sample([0, 0x20, 0x40, 0x60, 0x80, 0xa0, 0xc0], n)
+    items = []
+    dead_hash = [("PUSH", "20"), ("PUSH", "%x" % rw.choice([0, 0x20, 0x40])), ("KECCAK256", None), ("POP", None)]
+    kind = rw.choice(["load-stores", "store-loads", "stores-load", "mixed"])
+    if kind == "load-stores":
+        items += [("DUP%d" % rw.randrange(1, 4), None), (ld, None)]
+        if rw.random() < 0.5:
+            items += dead_hash
+        for c in consts:
+            items += [("DUP%d" % rw.randrange(1, 4), None), ("PUSH", "%x" % c), (st, None)]
+    elif kind == "store-loads":
+        items += [("DUP2", None), ("DUP2", None), (st, None)]
+        if rw.random() < 0.5:
+            items += dead_hash
+        for c in consts:
+            items += [("PUSH", "%x" % c), (ld, None)]
+    elif kind == "stores-load":
+        for c in consts:
+            items += [("DUP%d" % rw.randrange(1, 4), None), ("PUSH", "%x" % c), (st, None)]
+        if rw.random() < 0.5:
+            items += dead_hash
+        items += [("DUP%d" % rw.randrange(1, 4), None), (ld, None)]
+    else:
+        items += [("DUP1", None), (ld, None)]
+        for c in consts[:2]:
+            items += [("DUP3", None), ("PUSH", "%x" % c), (st, None)]
+        items += dead_hash
+        items += [("DUP2", None), (ld, None)]
+        for c in consts[2:]:
+            items += [("PUSH", "%x" % c), (ld, None)]
+    return items + [("PUSH", "%x" % rw.randrange(1, 99)), ("JUMP", None)]
+
+
 def build_ops(spec):
     ops = []
     for j in range(8):
@@ -50,6 +90,13 @@ def build_ops(spec):
             flags, desc = O.draw(stream(spec["seed"], i, "options"), backend="-greedy")
             op = C.asm_op(doc, flags + ["-log"])
             op["fmt"] = "asm"
+            op["desc"] = desc
+        elif j == 6:
+            from gsim.work import options as O
+            flags, desc = O.draw(stream(spec["seed"], i, "options"), backend="-greedy")
+            flags = [f for f in flags if f not in ("-storage", "-partition")]
+            op = C.bl_op([fanout_block(rw) for _ in range(8)], flags)
+            op["fmt"] = "bl"
             op["desc"] = desc
         else:
             op = C.build_pipe_op(sub, backend="-greedy")
